@@ -248,3 +248,163 @@ def deeponet_dataset_coverage_instance(S):
         int_ = z3.Or([pt.at([(s,) if pt.shape[0].concrete() != 1 else (), ()]) == z3.ToReal(gj) for s in range(pt.shape[0].concrete())])
         alts.append(z3.And(inb, int_))
     S.ensure("every-pair-presented-in-one-pass", z3.Or(alts) if alts else False)
+
+
+# ----------------------------------------------------------------------------- DataCondition on the full data set
+COND = "torchphysics.problem.conditions.condition.DataCondition"
+RN = "torchphysics.problem.spaces.space.Rn"
+
+
+class BatchFamily:
+    """an arbitrary data loader: M >= 0 batches; batch i has NR(i) >= 1 rows, inputs FX(i, r, c) in the space t*x and
+    targets FY(i, r) in the space u (contract of iterating a DataLoader once, A5: every batch exactly once, in order)"""
+
+    def __init__(self, S, M):
+        self.S, self.M = S, M
+        self.NR = z3.Function("batch_rows", z3.IntSort(), z3.IntSort())
+        self.FX = z3.Function("batch_x", z3.IntSort(), z3.IntSort(), z3.IntSort(), z3.RealSort())
+        self.FY = z3.Function("batch_y", z3.IntSort(), z3.IntSort(), z3.RealSort())
+
+    def tpv_len(self, I):
+        return self.M
+
+    def tpv_sym_iter(self):
+        return self.M, self.item
+
+    def item(self, I, i):
+        from tpv.core import STensor, Dim
+        from tpv.tlib import Tensor
+
+        S, iz = self.S, zint(i)
+        n = self.NR(iz)
+        I.ctx.assume(n >= 1)
+        X = Tensor(STensor([Dim([n]), Dim([3])], lambda idx: self.FX(iz, zint(idx[0][0]), zint(idx[1][0])), "real"))
+        Y = Tensor(STensor([Dim([n]), Dim([])], lambda idx: self.FY(iz, zint(idx[0][0])), "real"))
+        tx = S.I.binop(ast.Mult(), S.new(RN, "t", 1), S.new(RN, "x", 2))
+        return (S.new(POINTS, X, tx), S.new(POINTS, Y, S.new(RN, "u", 1)))
+
+
+@scenario("C16", [COND + ".forward", COND + "._compute_dist"], configs=["2", "inf"])
+def data_condition_on_the_full_data_set_aggregates_every_batch_once(S):
+    """DataCondition(use_full_dataset=True).forward over an ARBITRARY loader with a symbolic number M of batches of
+    symbolic sizes (inductive loop contract).  Spec functions: Acc(0) = 0 and
+      norm p  : Acc(i+1) = Acc(i) + mean(|net(x_i) - y_i| ** p) / M        (mean of the per-batch means)
+      norm inf: Acc(i+1) = max(Acc(i), max |net(x_i) - y_i|)               (maximum)
+    post: the loss is Acc(M) (root 1); inside the loop every batch is used exactly once, its distance tensor is
+    |model(x) - y| row by row with the inputs bound by name, and the model is evaluated once per batch."""
+    from tpv.spec import LoopSpec
+    from tpv.tlib import Tensor
+    from tpv.core import STensor, Dim, zreal
+    from tpv.absdom import AbstractModel
+    from tpv import torchlib, tlib
+
+    I = S.I
+    M = S.int("M", 0)
+    fam = BatchFamily(S, M)
+    tx = I.binop(ast.Mult(), S.new(RN, "x", 2), S.new(RN, "t", 1))
+    model = AbstractModel(S, "net", tx, S.new(RN, "u", 1))
+    norm = 2 if S.cfg == "2" else "inf"
+    cond = S.new(COND, model.obj, fam, norm, use_full_dataset=True)
+    Acc = z3.Function("Acc", z3.IntSort(), z3.RealSort())
+    S.assume(Acc(0) == 0)
+    probe = S.probe_returns(COND + "._compute_dist")
+    Mz = zint(M)
+
+    def make(I_, env, i):
+        v = Acc(zint(i))
+        if norm == "inf":
+            I_.ctx.assume(v >= 0)
+        env.vars["loss"] = Tensor(STensor([Dim([])], lambda idx: v, "real"))
+        del probe[:]
+        del model.calls[:]
+
+    def check(I_, env, i, tag):
+        loss = env.vars.get("loss")
+        ok = isinstance(loss, Tensor) and loss.val.numel_concrete() == 1
+        S.ensure(f"batch-loop/{tag}:loss-is-one-number", ok, kind="inv")
+        if not ok:
+            return
+        lv = zreal(loss.val.at([() for _ in loss.val.shape]))
+        if tag == "inv-init":
+            S.ensure(f"batch-loop/{tag}:starts-at-zero", lv == Acc(0), kind="inv")
+            return
+        # inv-step: i is (previous index + 1); exactly one batch was consumed
+        S.ensure(f"batch-loop/{tag}:distance-computed-once-model-evaluated-once", len(probe) == 1 and len(model.calls) == 1, kind="inv")
+        if len(probe) != 1:
+            return
+        a = probe[0]
+        prev = z3.simplify(zint(i) - 1)
+        S.forall(f"batch-loop/{tag}:distance-is-abs-model-minus-target-of-this-batch-by-name", Tensor(a),
+                 lambda q: zreal(a.at(q)) == (lambda d: z3.If(d >= 0, d, -d))(model.out_terms([fam.FX(prev, zint(q[0][0]), z3.IntVal(1)), fam.FX(prev, zint(q[0][0]), z3.IntVal(2)), fam.FX(prev, zint(q[0][0]), z3.IntVal(0))])[0] - fam.FY(prev, zint(q[0][0]))), kind="inv")
+        S.ensure(f"batch-loop/{tag}:all-rows-of-the-batch-used", a.shape[0].size_term() == fam.NR(prev), kind="inv")
+        if norm == 2:
+            want = torchlib.t_mean(I_, tlib.power(I_, Tensor(a), 2)).val.at([])
+            definition = Acc(zint(i)) == Acc(prev) + want / z3.ToReal(Mz)
+        else:
+            want = torchlib._minmax("max")(I_, Tensor(a)).val.at([])
+            definition = Acc(zint(i)) == z3.If(want > Acc(prev), want, Acc(prev))
+        S.ensure(f"batch-loop/{tag}:accumulator-follows-its-recursive-definition", lv == Acc(zint(i)), [definition] + S.minmax_cross_instances(), kind="inv")
+
+    S.loop(COND + ".forward", 0, LoopSpec(make, check, modifies=["loss"], label="batch-loop"))
+    loss = S.method(cond, "forward")
+    lv = zreal(loss.val.at([() for _ in loss.val.shape]))
+    S.ensure("loss-is-the-accumulator-after-all-M-batches", lv == Acc(Mz))
+
+
+# ----------------------------------------------------------------------------- DeepONetDataCondition: pairing inside the distance
+DCOND = "torchphysics.problem.conditions.deeponet_condition.DeepONetDataCondition"
+
+
+@scenario("C16", [DCOND + "._compute_dist", DCOND + ".__init__"], configs=["shared-trunk-input", "trunk-input-per-function"], bounded="output dimension d = 2 (schematic); numbers of functions, locations and neurons symbolic")
+def deeponet_data_condition_pairs_function_i_with_location_j(S):
+    """DeepONetDataCondition._compute_dist on a batch (branch_in, trunk_in, out): the branch is evaluated once on
+    branch_in, the trunk once on trunk_in, and dist[i, j, c] = | sum_k T[(i,) j, c, k] * Br[i, c, k] - out[i, j, c] |:
+    the target of function i at location j is compared with the model output of branch function i at trunk location j
+    (trunk / branch networks abstract: feature tensors T, Br)."""
+    from tpv import tsum
+    from tpv.core import Dim, zreal
+    from tpv.tlib import Tensor
+    from .c09_deeponet import abstract_trunk_branch, DON
+    from .geom import tensor_of
+
+    per_fn = S.cfg == "trunk-input-per-function"
+    B, n, q = S.int("B", 1), S.int("n", 1), S.int("q", 1)
+    d = 2
+    trunk, branch, Tt, Bt = abstract_trunk_branch(S, B, n, d, q, per_fn)
+    bcalls, tcalls = [], []
+    branch.f["current_out"] = None
+
+    def branch_call(I2, o, inp, *a, **k):
+        bcalls.append(inp)
+        o.f["current_out"] = Bt
+
+    def trunk_call(I2, o, pts, *a, **k):
+        tcalls.append(pts)
+        return Tt
+
+    branch.f["__overrides__"] = {"forward": branch_call, "__call__": branch_call}
+    trunk.f["__overrides__"] = {"forward": trunk_call, "__call__": trunk_call}
+    us = S.new(RN, "u", d)
+    net = S.new(DON, trunk, branch, us, Sym(zint(q) * d, "int"))
+    cond = S.new(DCOND, net, [], 2)
+    bin_ = S.new(POINTS, S.tensor("Bin", [B, 3, 1]), S.new(RN, "f", 1))
+    tin = S.new(POINTS, S.tensor("Tin", ([B] if per_fn else []) + [n, 1]), S.new(RN, "x", 1))
+    Out = S.tensor("Out", [B, n, d])
+    out = S.new(POINTS, Out, us)
+    dist = S.method(cond, "_compute_dist", (bin_, tin, out), "cpu")
+    S.ensure("branch-evaluated-once-on-the-branch-input", len(bcalls) == 1 and bcalls[0] is bin_)
+    S.ensure("trunk-evaluated-once-on-the-trunk-input", len(tcalls) == 1 and tcalls[0] is tin)
+    t = dist.val
+    ok = t.rank == 3 and t.shape[2].concrete() == d
+    S.ensure("distance-shape-functions-locations-components", ok and t.shape[0].size_term() == zint(B) and t.shape[1].size_term() == zint(n))
+    if not ok:
+        return
+
+    def want(q_):
+        b, nn, c = q_[0], q_[1], q_[2]
+        tidx = ([b] if per_fn else []) + [nn, c]
+        m = tsum.sum_term([Dim([zint(q)])], lambda r: zreal(Tt.val.at(tidx + [r[0]])) * zreal(Bt.val.at([b, c, r[0]])), "sum")
+        dd = m - zreal(Out.val.at([b, nn, c]))
+        return z3.If(dd >= 0, dd, -dd)
+
+    S.forall("dist-i-j-compares-target-i-j-with-branch-function-i-at-trunk-location-j", dist, lambda q_: zreal(t.at(q_)) == want(q_))
